@@ -1,5 +1,7 @@
 """Per-property configuration of the M1 (pool machine) checks: generator profile, projection of the lock-step
 diff (DESIGN §3.3), monitors, theorems, budgets."""
+import os
+
 from . import gen
 
 # name -> (pool fields, event kinds, strip callback counters, strip worker args)
@@ -31,7 +33,7 @@ PROFILES = {
                        w=dict(set_size=2, spawn=22, spawn2=4, lock=7, gac=3, cancel=8, cancel_group=2, cancel_all=1)),
     "C05": gen.profile(hooks=0.0, simple=0.0, w=dict(NO_SIZE, spawn=4, spawn2=24, cancel=8, cancel_group=2, cancel_all=1, gate=16),
                        empty_elems=0.25),
-    "C06": gen.profile(hooks=0.1, w=dict(NO_SIZE, cancel=22, flush=6, cancel_group=3, cancel_all=1)),
+    "C06": gen.profile(hooks=0.1, w=dict(NO_SIZE, cancel=22, flush=6, cancel_group=3, cancel_all=1), sw="00001222"),
     "C07": gen.profile(hooks=0.3, w=dict(NO_SIZE, cancel_group=16, cancel_all=6, spawn=14, spawn2=14)),
     "C08": gen.profile(hooks=0.15, w=dict(NO_SIZE, gac=8, until_closed=5, cancel_group=6, cancel_all=3, spawn2=14),
                        iter_raise=0.1),
@@ -40,10 +42,10 @@ PROFILES = {
     "C11": gen.profile(hooks=0.2, multi=0.5, w=dict(NO_SIZE, flush=8, cancel=8, mkpool=2)),
     "C12": gen.profile(hooks=0.0, w=dict(NO_SIZE, flush=10, gac=5, gate=16), cbs="nnpcxx", modes="gggrxx", exc_gate=0.4),
     "C13": gen.profile(hooks=0.1, w=dict(NO_SIZE, flush=16, cancel=14, gate=18, gac=0), cbs="nccccpx", iter_raise=0.2),
-    "C14": gen.profile(hooks=0.1, simple=1.0, w=dict(NO_SIZE, spawn=18, spawn2=20, cancel=8, gate=12)),
+    "C14": gen.profile(hooks=0.1, simple=1.0, w=dict(NO_SIZE, spawn=18, spawn2=20, cancel=8, gate=12), sw="00001222"),
     "C15": gen.profile(hooks=0.0, w=dict(set_size=12, spawn=16, spawn2=10)),
 }
 
-BUDGET = {"quick": 12000, "thorough": 400000}
+BUDGET = {"quick": int(os.environ.get("VERIF_QUICK_BUDGET", "36000")), "thorough": 400000}
 
 M1_PROPS = sorted(PROJ)
